@@ -458,4 +458,3 @@ func tail(s string, n int) string {
 	}
 	return s
 }
-
